@@ -1,95 +1,204 @@
 /-
-Spec-side reader for C08 (`parse_show_partial`): a precedence-climbing parser over TOKENS for the
-operator fragment {atoms, the 12 binary operators, unary minus, postfix percent, parenthesised
-expression}.  All binary operators are left-associative, comparisons bind loosest, unary minus binds
-tighter than every binary operator, `%` tighter still.  `prec` agrees with the library's own
-OPERATOR_PRECEDENCE on the operators it lists (checked in Props/C08).
+Spec-side reader for C08 (`parse_show`): what a formula TEXT denotes.
+
+`PT` is the tree a text can denote (every constructor of `Formula.Expr` has its counterpart: number /
+string / boolean literal, reference text, omitted argument, the 12 binary operators, unary minus,
+postfix percent, parenthesised list `(a,b,…)`, function call `NAME(arg,arg,…)` with omitted arguments,
+array literal `{a,b;c,d}` as rows).  `canon : Expr → PT` forgets exactly what the text cannot show
+(how a number is stored, which of the two boolean node kinds was used, a date literal versus the
+`DATE(y,m,d)` call it is printed as, a function id versus its name, an array's flat storage versus
+its rows).
+
+`parse` is a fuel-indexed precedence-climbing parser over TOKENS: all binary operators are
+left-associative, comparisons bind loosest, unary minus binds tighter than every binary operator, `%`
+tighter still; separators are the ones `Formula.function/list/array` print (`,` between arguments,
+list elements and array cells, `;` between array rows).  `prec` agrees with the library's own
+OPERATOR_PRECEDENCE on the operators it lists (checked in Props/C08).  The character-level lexer is in
+Model/FormulaLex.lean.
 -/
 import NumbersModel.Model.Formula
 namespace NumbersModel.Formula.Parse
 open NumbersModel NumbersModel.Formula
 
 inductive Tok where
-  | atom (n : Nat) | op (o : BinOp) | lp | rp | pct
+  /-- a decimal number text -/
+  | num (t : Text)
+  /-- a string literal (content, quotes undoubled) -/
+  | str (s : Text)
+  | bool (b : Bool)
+  /-- a reference / name text -/
+  | name (t : Text)
+  /-- a function name together with its opening parenthesis -/
+  | fn (t : Text)
+  | op (o : BinOp) | lp | rp | lb | rb | comma | semi | pct
   deriving DecidableEq, Repr, Inhabited
 
-/-- expression trees of the fragment (`paren` = a LIST node with one element). -/
-inductive PE where
-  | atom (n : Nat)
-  | bin (o : BinOp) (l r : PE)
-  | neg (e : PE)
-  | pct (e : PE)
-  | paren (e : PE)
-  deriving DecidableEq, Repr, Inhabited
+/-- what a formula text denotes. -/
+inductive PT where
+  | num (t : Text)
+  | str (s : Text)
+  | bool (b : Bool)
+  | name (t : Text)
+  | empty
+  | bin (o : BinOp) (l r : PT)
+  | neg (e : PT)
+  | pct (e : PT)
+  | paren (es : List PT)
+  | call (f : Text) (args : List PT)
+  | arr (rows : List (List PT))
+  deriving Repr, Inhabited
 
 def prec : BinOp → Nat
   | .pow => 5 | .mul => 4 | .div => 4 | .add => 3 | .sub => 3 | .concat => 2
   | .gt => 1 | .ge => 1 | .lt => 1 | .le => 1 | .eq => 1 | .ne => 1
 
+mutual
 /-- the token stream of the rendered text. -/
-def toks : PE → List Tok
-  | .atom n => [.atom n]
+def toks : PT → List Tok
+  | .num t => [.num t]
+  | .str s => [.str s]
+  | .bool b => [.bool b]
+  | .name t => [.name t]
+  | .empty => []
   | .bin o l r => toks l ++ .op o :: toks r
   | .neg e => .op .sub :: toks e
   | .pct e => toks e ++ [.pct]
-  | .paren e => .lp :: (toks e ++ [.rp])
+  | .paren es => .lp :: (toksSeq es ++ [.rp])
+  | .call f args => .fn f :: (toksSeq args ++ [.rp])
+  | .arr rows => .lb :: (toksRows rows ++ [.rb])
+/-- `a,b,c` -/
+def toksSeq : List PT → List Tok
+  | [] => []
+  | e :: es => toks e ++ toksTail es
+/-- `,b,c` -/
+def toksTail : List PT → List Tok
+  | [] => []
+  | e :: es => .comma :: (toks e ++ toksTail es)
+/-- `a,b;c,d` -/
+def toksRows : List (List PT) → List Tok
+  | [] => []
+  | r :: rs => toksSeq r ++ toksRowsTail rs
+/-- `;c,d` -/
+def toksRowsTail : List (List PT) → List Tok
+  | [] => []
+  | r :: rs => .semi :: (toksSeq r ++ toksRowsTail rs)
+end
 
 /-- binding level of the outermost construct. -/
-def lvl : PE → Nat
+def lvl : PT → Nat
   | .bin o _ _ => prec o
   | .neg _ => 6
   | .pct _ => 7
-  | .atom _ => 8
-  | .paren _ => 8
+  | .empty => 0
+  | _ => 8
 
-/-- parenthesised the way Numbers stores it: an operand that binds looser than its context is wrapped
-    in a LIST node (left operands may bind equally: left associativity). -/
-def WP : PE → Prop
-  | .atom _ => True
-  | .bin o l r => WP l ∧ WP r ∧ prec o ≤ lvl l ∧ prec o < lvl r
-  | .neg e => WP e ∧ 6 ≤ lvl e
-  | .pct e => WP e ∧ 7 ≤ lvl e
-  | .paren e => WP e
+def isEmpty : PT → Bool
+  | .empty => true
+  | _ => false
 
-def pPostfix (e : PE) : List Tok → PE × List Tok
+mutual
+/-- a (non-empty) expression parenthesised the way Numbers stores it: an operand that binds looser than
+    its context is wrapped in a LIST node (left operands may bind equally: left associativity); omitted
+    arguments occur only as arguments of a call with at least two arguments (a lone omitted argument
+    prints like no argument at all); lists, arrays and array rows are non-empty. -/
+def WP : PT → Bool
+  | .num _ => true
+  | .str _ => true
+  | .bool _ => true
+  | .name _ => true
+  | .empty => false
+  | .bin o l r => WP l && WP r && decide (prec o ≤ lvl l) && decide (prec o < lvl r)
+  | .neg e => WP e && decide (6 ≤ lvl e)
+  | .pct e => WP e && decide (7 ≤ lvl e)
+  | .paren es => !es.isEmpty && WPs es
+  | .call _ args => !(args.length == 1 && WPLone args) && WPArgs args
+  | .arr rows => !rows.isEmpty && WPRows rows
+def WPs : List PT → Bool
+  | [] => true
+  | e :: es => WP e && WPs es
+/-- the list is one omitted argument -/
+def WPLone : List PT → Bool
+  | [] => false
+  | e :: _ => isEmpty e
+def WPArgs : List PT → Bool
+  | [] => true
+  | e :: es => (isEmpty e || WP e) && WPArgs es
+def WPRows : List (List PT) → Bool
+  | [] => true
+  | r :: rs => !r.isEmpty && WPs r && WPRows rs
+end
+
+/-- `NAME()` has no argument (a lone omitted argument is not distinguishable from none). -/
+def normArgs : List PT → List PT
+  | [e] => if isEmpty e then [] else [e]
+  | as => as
+
+/-- the input after a leading unary minus. -/
+def negTail : List Tok → Option (List Tok)
+  | .op .sub :: r => some r
+  | _ => none
+
+/-- the next token ends a function argument. -/
+def argEnds : List Tok → Bool
+  | .comma :: _ => true
+  | .rp :: _ => true
+  | _ => false
+
+def pPostfix (e : PT) : List Tok → PT × List Tok
   | .pct :: r => pPostfix (.pct e) r
   | r => (e, r)
 
 mutual
-def pPrimary : Nat → List Tok → Option (PE × List Tok)
+def pPrimary : Nat → List Tok → Option (PT × List Tok)
   | 0, _ => none
-  | _ + 1, .atom n :: r => some (.atom n, r)
+  | _ + 1, .num t :: r => some (.num t, r)
+  | _ + 1, .str s :: r => some (.str s, r)
+  | _ + 1, .bool b :: r => some (.bool b, r)
+  | _ + 1, .name t :: r => some (.name t, r)
+  | f + 1, .fn n :: r =>
+    match pArg f r with
+    | some (a, r1) =>
+      match pArgsTail f r1 with
+      | some (as, .rp :: r2) => some (.call n (normArgs (a :: as)), r2)
+      | _ => none
+    | none => none
   | f + 1, .lp :: r =>
     match pExpr f 1 r with
-    | some (e, .rp :: r') => some (.paren e, r')
-    | _ => none
+    | some (e, r1) =>
+      match pItemsTail f r1 with
+      | some (es, .rp :: r2) => some (.paren (e :: es), r2)
+      | _ => none
+    | none => none
+  | f + 1, .lb :: r =>
+    match pExpr f 1 r with
+    | some (e, r1) =>
+      match pItemsTail f r1 with
+      | some (es, r2) =>
+        match pRowsTail f r2 with
+        | some (rows, .rb :: r3) => some (.arr ((e :: es) :: rows), r3)
+        | _ => none
+      | none => none
+    | none => none
   | _ + 1, _ => none
-def pUnary : Nat → List Tok → Option (PE × List Tok)
+def pUnary : Nat → List Tok → Option (PT × List Tok)
   | 0, _ => none
-  | f + 1, .op o :: r =>
-    if o = .sub then
+  | f + 1, ts =>
+    match negTail ts with
+    | some r =>
       match pUnary f r with
       | some (e, r') => some (.neg e, r')
       | none => none
-    else none
-  | f + 1, .atom n :: r =>
-    match pPrimary f (.atom n :: r) with
-    | some (e, r') => some (pPostfix e r')
-    | none => none
-  | f + 1, .lp :: r =>
-    match pPrimary f (.lp :: r) with
-    | some (e, r') => some (pPostfix e r')
-    | none => none
-  | _ + 1, .rp :: _ => none
-  | _ + 1, .pct :: _ => none
-  | _ + 1, [] => none
-def pExpr : Nat → Nat → List Tok → Option (PE × List Tok)
+    | none =>
+      match pPrimary f ts with
+      | some (e, r') => some (pPostfix e r')
+      | none => none
+def pExpr : Nat → Nat → List Tok → Option (PT × List Tok)
   | 0, _, _ => none
   | f + 1, m, ts =>
     match pUnary f ts with
     | some (lhs, r) => pLoop f m lhs r
     | none => none
-def pLoop : Nat → Nat → PE → List Tok → Option (PE × List Tok)
+def pLoop : Nat → Nat → PT → List Tok → Option (PT × List Tok)
   | 0, _, _, _ => none
   | f + 1, m, lhs, .op o :: r =>
     if m ≤ prec o then
@@ -98,27 +207,143 @@ def pLoop : Nat → Nat → PE → List Tok → Option (PE × List Tok)
       | none => none
     else some (lhs, .op o :: r)
   | _ + 1, _, lhs, r => some (lhs, r)
+/-- one function argument: nothing at all before `,` or `)` is an omitted argument. -/
+def pArg : Nat → List Tok → Option (PT × List Tok)
+  | 0, _ => none
+  | f + 1, ts => if argEnds ts then some (.empty, ts) else pExpr f 1 ts
+/-- `,arg,arg…` -/
+def pArgsTail : Nat → List Tok → Option (List PT × List Tok)
+  | 0, _ => none
+  | f + 1, .comma :: r =>
+    match pArg f r with
+    | some (a, r1) =>
+      match pArgsTail f r1 with
+      | some (as, r2) => some (a :: as, r2)
+      | none => none
+    | none => none
+  | _ + 1, r => some ([], r)
+/-- `,expr,expr…` -/
+def pItemsTail : Nat → List Tok → Option (List PT × List Tok)
+  | 0, _ => none
+  | f + 1, .comma :: r =>
+    match pExpr f 1 r with
+    | some (e, r1) =>
+      match pItemsTail f r1 with
+      | some (es, r2) => some (e :: es, r2)
+      | none => none
+    | none => none
+  | _ + 1, r => some ([], r)
+/-- `;row;row…` -/
+def pRowsTail : Nat → List Tok → Option (List (List PT) × List Tok)
+  | 0, _ => none
+  | f + 1, .semi :: r =>
+    match pExpr f 1 r with
+    | some (e, r1) =>
+      match pItemsTail f r1 with
+      | some (es, r2) =>
+        match pRowsTail f r2 with
+        | some (rows, r3) => some ((e :: es) :: rows, r3)
+        | none => none
+      | none => none
+    | none => none
+  | _ + 1, r => some ([], r)
 end
 
 /-- the whole input must be one expression. -/
-def parse (fuel : Nat) (ts : List Tok) : Option PE :=
+def parse (fuel : Nat) (ts : List Tok) : Option PT :=
   match pExpr fuel 1 ts with
   | some (e, []) => some e
   | _ => none
 
-/-- the fragment inside `Expr` (atoms are opaque reference texts `name n`). -/
-def embed (name : Nat → Text) : PE → Expr
-  | .atom n => .ref (name n)
-  | .bin o l r => .bin o (embed name l) (embed name r)
-  | .neg e => .neg (embed name e)
-  | .pct e => .pct (embed name e)
-  | .paren e => .paren [embed name e]
+/-- the parser with the fuel that always suffices (Lemmas/FormulaParse `parseToks_toks`). -/
+def parseToks (ts : List Tok) : Option PT := parse (4 * ts.length + 3) ts
 
-def tokText (name : Nat → Text) : Tok → Text
-  | .atom n => name n
-  | .op o => glyph o
-  | .lp => ['(']
-  | .rp => [')']
-  | .pct => ['%']
+/-! ### from stored expressions to what their text denotes -/
+
+/-- split into `r` rows of `c` cells. -/
+def chunksG {α : Type} : Nat → Nat → List α → List (List α)
+  | 0, _, _ => []
+  | r + 1, c, xs => xs.take c :: chunksG r c (xs.drop c)
+
+def dateCanon (micros : Int) : PT :=
+  let (y, m, d) := civil (epochOrdinal + micros / 86400000000).toNat
+  .call "DATE".toList [.num (natStr y), .num (natStr m), .num (natStr d)]
+
+mutual
+def canon : Expr → PT
+  | .num n => .num (numText n)
+  | .str s => .str s
+  | .bool _ b => .bool b
+  | .date m => dateCanon m
+  | .ref t => .name t
+  | .empty => .empty
+  | .bin op l r => .bin op (canon l) (canon r)
+  | .neg e => .neg (canon e)
+  | .pct e => .pct (canon e)
+  | .paren es => .paren (canonList es)
+  | .call f args => .call (funcName f) (canonList args)
+  | .arr c r es => .arr (chunksG r c (canonList es))
+def canonList : List Expr → List PT
+  | [] => []
+  | e :: es => canon e :: canonList es
+end
+
+mutual
+/-- the conventional infix renderer on `PT` (same separators as `Formula.render`). -/
+def renderPT : PT → Text
+  | .num t => t
+  | .str s => quoteLit s
+  | .bool b => boolText b
+  | .name t => t
+  | .empty => []
+  | .bin op l r => renderPT l ++ glyph op ++ renderPT r
+  | .neg e => '-' :: renderPT e
+  | .pct e => renderPT e ++ ['%']
+  | .paren es => '(' :: (renderSeq es ++ [')'])
+  | .call f args => f ++ '(' :: (renderSeq args ++ [')'])
+  | .arr rows => '{' :: (renderRows rows ++ ['}'])
+def renderSeq : List PT → Text
+  | [] => []
+  | e :: es => renderPT e ++ renderTail es
+def renderTail : List PT → Text
+  | [] => []
+  | e :: es => ',' :: (renderPT e ++ renderTail es)
+def renderRows : List (List PT) → Text
+  | [] => []
+  | r :: rs => renderSeq r ++ renderRowsTail rs
+def renderRowsTail : List (List PT) → Text
+  | [] => []
+  | r :: rs => ';' :: (renderSeq r ++ renderRowsTail rs)
+end
+
+def opName : BinOp → Text
+  | .add => "add".toList | .sub => "sub".toList | .mul => "mul".toList | .div => "div".toList
+  | .pow => "pow".toList | .concat => "concat".toList | .gt => "gt".toList | .ge => "ge".toList
+  | .lt => "lt".toList | .le => "le".toList | .eq => "eq".toList | .ne => "ne".toList
+
+mutual
+/-- a readable s-expression of a tree (used in examples; the driver prints its own encoded form). -/
+def sexp : PT → Text
+  | .num t => "(num ".toList ++ t ++ [')']
+  | .str s => "(str ".toList ++ quoteLit s ++ [')']
+  | .bool b => "(bool ".toList ++ boolText b ++ [')']
+  | .name t => "(name ".toList ++ t ++ [')']
+  | .empty => "(empty)".toList
+  | .bin o l r => '(' :: opName o ++ ' ' :: sexp l ++ ' ' :: sexp r ++ [')']
+  | .neg e => "(neg ".toList ++ sexp e ++ [')']
+  | .pct e => "(pct ".toList ++ sexp e ++ [')']
+  | .paren es => "(paren".toList ++ sexps es ++ [')']
+  | .call f args => "(call ".toList ++ f ++ sexps args ++ [')']
+  | .arr rows => "(arr".toList ++ sexpRows rows ++ [')']
+def sexps : List PT → Text
+  | [] => []
+  | e :: es => ' ' :: sexp e ++ sexps es
+def sexpRows : List (List PT) → Text
+  | [] => []
+  | r :: rs => " (row".toList ++ sexps r ++ [')'] ++ sexpRows rs
+end
+
+/-- `Expr` trees whose text is read back: parenthesised the way Numbers stores them. -/
+def WellParen (e : Expr) : Bool := WP (canon e)
 
 end NumbersModel.Formula.Parse
